@@ -2,8 +2,8 @@
 From Coq Require Import List Bool Arith NArith ZArith String Ascii.
 From Coq.Strings Require Import Byte.
 From Verif.Base Require Import Bytes Outcome Str.
-From Verif.Model Require Import IE Codec Record SetB Msg Exporter Rfc7011.
-From Verif.Driver Require Import Show SetShow HistShow RfcCheck C08drv.
+From Verif.Model Require Import IE Codec Record SetB Msg Exporter ExpObj Rfc7011.
+From Verif.Driver Require Import Show SetShow HistShow HistObj RfcCheck C08drv C02drv.
 Import ListNotations.
 Local Open Scope N_scope.
 
@@ -57,7 +57,8 @@ Fixpoint c09_walk (sent_tpls : list (N * N)) (sends : list (list dop)) (os : lis
   | _, _ => false
   end.
 
-Definition C09_holds_on (c : hcase) (o : list sobs * fobs) : bool :=
+(* the histories of Driver/HistShow.v: one fresh set per send *)
+Definition C09_holds_on_h (c : hcase) (o : list sobs * fobs) : bool :=
   c09_walk [] (hc_sends c) (fst o) (snd o).
 
 (* hypotheses of the statement, on the case:
@@ -71,19 +72,51 @@ Definition C09_holds_on (c : hcase) (o : list sobs * fobs) : bool :=
      well-kinded but not encodable (address family, MAC / octet-array length, nil) are inside
      the hypotheses - they are what clause (e) is about;
    (case_set_ok, Driver/RfcCheck.v) and on the run: no call panics. *)
-Definition c09_wf (c : hcase) (os : list sobs) : bool :=
+Definition c09_wf_h (c : hcase) (os : list sobs) : bool :=
   forallb (fun ds => case_set_ok (set_of (ops_of ds))) (hc_sends c) &&
   forallb (fun o => match so_res o with RPanic => false | _ => true end) os.
 
+(* ---- object-level histories (Model/ExpObj.v): the same demand per call, on the set as SendSet
+   saw it (the same set object sent again - e.g. a retry after a refused call -, records whose
+   GetBuffer already ran, element objects changed after the add); a refresh must write
+   well-formed template messages of registered templates ---- *)
+Fixpoint c09g_walk (sent_tpls : list (N * N)) (outs : list gout) (os : list gobs) (f : fobs) : bool :=
+  match outs, os with
+  | [], [] => String.eqb (fo_stray f) "-"
+  | OSent _ s _ _ :: ro, GOSend o :: rs =>
+      let sent' := match so_res o, s_type s with
+                   | ROk _, STemplate => (tpl_pairs s ++ sent_tpls)%list
+                   | _, _ => sent_tpls
+                   end in
+      c09_send_ok sent_tpls s o && c09g_walk sent' ro rs f
+  | ORefresh st _ _ :: ro, GORefresh ws _ :: rs =>
+      c02_refresh_check st ws && c09g_walk sent_tpls ro rs f
+  | OReconn _ _ :: ro, GOReconn s :: rs =>
+      (* a new process: no template has been sent on it *)
+      String.eqb s "-" && c09g_walk [] ro rs f
+  | _, _ => false
+  end.
+
+Definition C09_holds_on (c : gcase) (o : list gobs * fobs) : bool :=
+  c09g_walk [] (gouts cur c) (fst o) (snd o).
+
+(* hypotheses: as above for every set sent (as SendSet saw it); no call panics; the histories
+   of this property contain no refresh *)
+Definition c09_wf_outs (outs : list gout) (os : list gobs) : bool :=
+  forallb (fun o => match o with OSent _ s _ _ => case_set_ok s | ORefresh _ _ _ => false | OReconn _ _ => true end) outs &&
+  forallb (fun o => match o with GOSend s => match so_res s with RPanic => false | _ => true end | _ => true end) os.
+Definition c09_wf (c : gcase) (os : list gobs) : bool := c09_wf_outs (gouts cur c) os.
+
 Definition c09_run (case obs : list string) : string :=
-  match parse_hcase case with
+  match parse_gcase case with
   | Some c =>
-      let m := hist_model cur c in
-      show_hist m ++ " | " ++
-      show_bool (match parse_hobs (S (List.length obs)) obs with
-                 | Some o => C09_holds_on c o
+      let p := grun_all cur c in
+      let m := gmodel_of (gc_full c) p in
+      show_ghist m ++ " | " ++
+      show_bool (match parse_gobs (S (List.length obs)) obs with
+                 | Some o => c09g_walk [] (fst p) (fst o) (snd o)
                  | None => false
                  end)
-      ++ " " ++ show_bool (c09_wf c (fst m))
+      ++ " " ++ show_bool (c09_wf_outs (fst p) (fst m))
   | None => "PARSE-ERROR"
   end.
